@@ -21,7 +21,7 @@ META = {
     "C01": {
         "bounds": "six Bencher entry points on shapes {sized+Drop input by ref / by value, plain or sized+Drop output, "
                   "ZST+Drop input and output (fast path), no-input + sized+Drop output}; sample size 2 (entry-point cells, "
-                  "concrete so that allocation sizes stay concrete) and symbolic 0..=3 (recorder called directly, ZST path); "
+                  "concrete so that allocation sizes stay concrete) and symbolic 0..=3 (recorder called directly incl. the zero-sized fast path with an input counter, ZST path); "
                   "bench and test mode; configured thread count 3 for the _local forms; T=2 sequentialised for bench_refs; "
                   "one round",
         "outside": "real threads / interleavings (Kani has no thread model); the panic clause (Kani compiles with "
@@ -46,7 +46,7 @@ META = {
     },
     "C03": {
         "bounds": "grid (n, s, T) in {(2,1,1), (3,2,1), (3,1,2), (2,1,3), (0,1,1), (1,0,1)} (1,1,3) [overshoot by two], (thorough adds (4,3,2), (5,1,4)); "
-                  "test mode with symbolic n, s >= 1 for T in {1,2}; default n (unset) for the first 3 rounds; all clock "
+                  "test mode with symbolic n, s >= 1 for T in {1,2}; n = 0 / s = 0 also with symbolic min_time/max_time/skip_ext_time, in test mode and with automatic sample size; default n (unset) for the first 3 rounds; all clock "
                   "readings symbolic; the round bound is one more than the expected number of rounds so that an extra round "
                   "is a reported failure, not a cut path",
         "outside": "n = 100 run to completion (100 rounds x CBMC); attribute/CLI plumbing of n, s, T (C15); real threads",
@@ -72,7 +72,10 @@ META = {
     },
     "C08": {
         "bounds": "per-thread protocol conformance with Barrier::wait observed: recorder called with a Barrier for all three "
-                  "loop paths, sample size symbolic 0..=2; bench_refs through the loop on T=2 sequentialised threads",
+                  "loop paths, sample size symbolic 0..=2; bench_refs through the loop on T=2 sequentialised threads; the "
+                  "zero-sized fast path (zero-sized input with destructor, plain output) on T=2, sample size 1..=2; "
+                  "T=2, n=3, s=1 (two rounds): the k-th recorded sample's allocation record is stored under index k and "
+                  "holds that thread's own bytes (HashMap::insert observed by a recording stub)",
         "outside": "the interleavings themselves and both panic clauses (no threads, no unwinding under Kani). By reading, a "
                    "panic on one of T>1 threads leaves the others blocked in Barrier::wait (hang instead of panic): this "
                    "technique cannot exhibit it, so it is neither claimed nor listed as a finding of this check",
@@ -116,7 +119,9 @@ META = {
     },
     "C12": {
         "bounds": "run-time registry kernel only: EntryList push/iter for 0..=3 nodes in any push order (symbolic "
-                  "permutation); shrink_array for OUT in {0,2,5,6} of IN=5",
+                  "permutation); shrink_array for OUT in {0,2,5,6} of IN=5; one case per args value in the driver: "
+                  "run_bench_entry on 3 symbolic argument values (two may render to the same label), kept subset or full "
+                  "permutation of the names: each kept name runs the value at its own position",
         "outside": "everything the #[divan::bench] / #[divan::bench_group] proc macros emit (a compiler plug-in over token "
                    "streams: no bounded symbolic encoding of 'all programs' within reach), .init_array constructors, link "
                    "order, types x consts product, module paths, display names",
@@ -125,7 +130,7 @@ META = {
     "C13": {
         "bounds": "FilterSet::is_match with 0, 2, 3 (thorough 4) filters, each symbolic in polarity and kind; exact filters "
                   "carry a symbolic 1-byte string (2-byte whole-string cell), regex filters an arbitrary-but-fixed verdict; "
-                  "SplitVec::insert for 3 and 4 symbolic inserts; run_bench_entry args arm: a symbolic pair of kept argument names (any filter/sort outcome) runs exactly the arguments they name",
+                  "SplitVec::insert for 3 and 4 symbolic inserts; run_bench_entry args arm: a symbolic pair (or full permutation) of kept argument names (any filter/sort outcome) runs exactly the arguments they name",
         "outside": "regular-expression search semantics (regex-lite trusted), the text of the display path, tree pruning "
                    "(EntryTree::retain: CBMC unrolls the recursive drop glue of removed subtrees and does not finish), clap",
         "assumptions": COMMON_TRUST + ["regex_lite::Regex::is_match stubbed to an opaque verdict keyed by a filter id smuggled "
@@ -162,9 +167,12 @@ META = {
         "bounds": "cmp_bench_arg_names(Name) on digit strings of lengths (1,2), (2,2) (thorough (3,2)), negative vs positive, "
                   "negative vs negative; integer vs non-numeric word (falls through to the natural order); Location = declaration order; with_tie_breakers table; cmp_int on digit runs "
                   "(2,3), (3,1) (thorough (3,3)); natural_cmp on 1-byte strings over {0,1,9,a,<} (thorough: 'a'+digit, "
-                  "'a'+2 digits vs 'a'+1 digit)",
+                  "'a'+2 digits vs 'a'+1 digit); EntryTree::cmp_by_attr on two benchmarks at symbolic (line, column) and benchmark vs module "
+                  "under --sort kind",
         "outside": "float arguments (dec2flt), non-ASCII names, longer strings, transitivity over triples, std sort itself "
-                   "(trusted to permute), EntryConst::cmp_name through fn pointers, EntryTree::cmp_by_attr",
+                   "(trusted to permute; a 3-element sort_by_attr cell is attempt-only), EntryConst::cmp_name through fn pointers, "
+                   "EntryTree::location over several children (recursion through iterator adapters: attempt-only), address "
+                   "tie-breaks (pointer order of distinct objects is undefined in CBMC's memory model)",
         "assumptions": COMMON_TRUST + ["f64::from_str stubbed to Err and natural_cmp to a nondeterministic Ordering in the "
                                        "integer-argument cells (the asserted branch returns before either is consulted)"],
     },
@@ -172,7 +180,7 @@ META = {
         "bounds": "BenchArgs::runner with 3 symbolic u8 arguments and a symbolic choice of the kept name pointer: index "
                   "recovery, typed argument, TypeId rejection, the benchmark closure receives that argument, second runner "
                   "call shares the list; &str items (name buffer reuse); slice_ptr_index for element sizes 1, 4, 16; the real "
-                  "run_bench_entry args arm with a symbolic pair of kept names (driver dispatch)",
+                  "run_bench_entry args arm with a symbolic pair of kept names and with all three kept in a symbolic order (driver dispatch)",
         "outside": "macro-generated glue (ToStringHelper, Arg::get), const generics and type names, String/Box<str>/Cow reuse "
                    "paths, lists longer than 3",
         "assumptions": COMMON_TRUST + ["engine artefact ignored: 'memset destination region writeable' for mem::zeroed of the "
@@ -202,7 +210,10 @@ META = {
     },
     "C20": {
         "bounds": "TreePainter with columns off: depth 3 with symbolic is_last at every level (prefix/branch glyphs, "
-                  "finish_parent restores), start_leaf line under a depth-2 parent",
+                  "finish_parent restores), start_leaf line under a depth-2 parent; the is_last flags the driver hands to the painter: "
+                  "run_bench_entry on an args benchmark (kept pair / full permutation: only the last kept row is last, the "
+                  "entry's own flag is passed through), run_tree on a 3-level chain (every level opened and closed once, an "
+                  "only child is last)",
         "outside": "statistics rows, column padding / width growth, non-ASCII display width, thread-count sub-branches, the "
                    "(ignored) marker line (attempt-only cell: CBMC memory), driver order on whole trees, stdout",
         "assumptions": COMMON_TRUST + ["std::io::_print stubbed to a no-op; painter state (write_buf, current_prefix, depth) "
@@ -337,7 +348,8 @@ CLAIMS.update({
     "C08": _claim(
         "Per-thread protocol conformance decided by the solver with Barrier::wait observed: exactly three rendezvous per "
         "sample on every loop path, inputs generated before the first, tally cleared before the second, timed section after the "
-        "second, snapshot and drops after the third; each sequentialised thread's sample carries only its own tally.",
+        "second, snapshot and drops after the third (also on the zero-sized fast path); each sequentialised thread's sample "
+        "carries only its own tally and is stored under its own sample index.",
         "Composition with std Barrier semantics is an argument, not a solver result; interleavings and both panic clauses are "
         "outside (Kani has no threads and no unwinding)."),
     "C11": _claim(
@@ -348,7 +360,8 @@ CLAIMS.update({
         _T + " + z3 lemmas on the specification formula"),
     "C12": _claim(
         "Registry kernel only: for up to 3 entries pushed in any order the linked list yields each exactly once and nothing "
-        "else; shrink_array keeps the first OUT elements. The proc-macro half of the property is not decidable by this family.",
+        "else; shrink_array keeps the first OUT elements; one case per args value in the driver (also for equal labels). The "
+        "proc-macro half of the property is not decidable by this family.",
         "Most of the statement (macro expansion, constructors, link order, types x consts) is outside; stated in the evidence."),
     "C13": _claim(
         "FilterSet::is_match decided for up to 3 (4) filters symbolic in polarity, kind and content with arbitrary regex "
@@ -370,7 +383,8 @@ CLAIMS.update({
         "Comparator kernels decided on bounded strings: integer runtime arguments (incl. negatives) order by value under "
         "--sort name (the pinned tree compared a with a: fixed), declaration order under location, tie-breaker table, cmp_int = "
         "numeric comparison with leading zeros, natural_cmp antisymmetric on the bounded alphabet.",
-        "Floats, longer strings, transitivity, std sort and tree-level comparison are outside."),
+        "Tree nodes: (line, column) order and benchmark-before-module under --sort kind. Floats, longer strings, "
+        "transitivity, std sort and a module's earliest-child location are outside."),
     "C17": _claim(
         "Label -> index -> value kernel decided for 3 symbolic arguments and any kept name pointer: the case labelled L runs "
         "with the argument whose rendering is L; wrong item types are rejected; the list is built once and shared.",
@@ -389,8 +403,9 @@ CLAIMS.update({
         "Trusted: Kani/CBMC and the environment stubs; 3-4 rounds."),
     "C20": _claim(
         "Painter kernel with columns off: for depth <= 3 and symbolic is_last flags every line is prefix ++ branch ++ name "
-        "with the documented glyphs and finish_parent restores the previous prefix and depth exactly.",
-        "Statistics rows, padding, the driver's traversal and stdout are outside."),
+        "with the documented glyphs and finish_parent restores the previous prefix and depth exactly; the driver hands the "
+        "painter the true position (last kept argument row / only child) on an args benchmark and a 3-level chain.",
+        "Statistics rows, padding, whole-tree traversal order and stdout are outside."),
 })
 
 NOT_APPLICABLE = {
